@@ -525,33 +525,60 @@ def r_resolve_index(ctx, repo):
                     any(M.match(M.compile_pattern('_N_i[0]')[1], c, dict(env)) for c in cj):
                 return True
         return False
-    keys = set()
-    for c, e in M.find(f.node, 'self.yaml_implicit_resolvers.get(__key, ...)', env):
-        k = e['__key']
+    # which key is looked up for an empty / a non-empty value: decided per scenario on the CFG (the key may be a constant, an
+    # expression of the value, a local, or a conditional expression - whatever the spelling)
+    from .cfg import CFG as _CFG2, reaching_defs as _rd, own_exprs as _own
+    rcfg = _CFG2(f.node)
+
+    def scenario_atom(empty):
+        def atom(node):
+            if M.match(M.compile_pattern("_N_v == ''")[1], node, dict(env)) or M.match(M.compile_pattern('not _N_v')[1], node, dict(env)):
+                return empty
+            if M.match(M.compile_pattern("_N_v != ''")[1], node, dict(env)) or (isinstance(node, ast.Name) and node.id == value):
+                return not empty
+            if M.match(M.compile_pattern('len(_N_v) == 0')[1], node, dict(env)):
+                return empty
+            return None
+        return atom
+
+    def key_kind(k, at, empty, depth=0):
+        """'empty' / 'first' / 'none' / text for the key expression k evaluated in the scenario."""
+        if depth > 5:
+            return norm(k)
         if isinstance(k, ast.Constant):
-            keys.add(repr(k.value))
-        elif M.match(M.compile_pattern('_N_v[0]')[1], k, dict(env)):
-            keys.add('value[0]')
-        else:
-            keys.add(norm(k))
-    empty_guard = False
-    for c, e in M.find(f.node, "self.yaml_implicit_resolvers.get('', ...)", env):
-        for iff, branch in A.guarding_ifs(c, f.node):
-            t = iff.test
-            if (branch == 'body' and (M.match(M.compile_pattern("_N_v == ''")[1], t, dict(env))
-                                      or M.match(M.compile_pattern('not _N_v')[1], t, dict(env)))) or \
-               (branch == 'orelse' and (M.match(M.compile_pattern("_N_v != ''")[1], t, dict(env))
-                                        or M.match(M.compile_pattern('_N_v')[1], t, dict(env)))):
-                empty_guard = True
-    first_guard = False
-    for c, e in M.find(f.node, 'self.yaml_implicit_resolvers.get(_N_v[0], ...)', env):
-        for iff, branch in A.guarding_ifs(c, f.node):
-            t = iff.test
-            if (branch == 'orelse' and (M.match(M.compile_pattern("_N_v == ''")[1], t, dict(env))
-                                        or M.match(M.compile_pattern('not _N_v')[1], t, dict(env)))) or \
-               (branch == 'body' and (M.match(M.compile_pattern("_N_v != ''")[1], t, dict(env))
-                                      or M.match(M.compile_pattern('_N_v')[1], t, dict(env)))):
-                first_guard = True
+            return 'empty' if k.value == '' else 'none' if k.value is None else repr(k.value)
+        if M.match(M.compile_pattern('_N_v[0]')[1], k, dict(env)) or M.match(M.compile_pattern('_N_v[:1]')[1], k, dict(env)):
+            return 'first'
+        if isinstance(k, ast.IfExp):
+            v = A.eval3(k.test, scenario_atom(empty))
+            if v is None:
+                return norm(k)
+            return key_kind(k.body if v else k.orelse, at, empty, depth + 1)
+        if isinstance(k, ast.Name):
+            defs = _rd(rcfg, k.id).get(at, set())
+            reach = A.cfg_reach_under(rcfg, scenario_atom(empty))
+            kinds = {key_kind(d.ast.value, d, empty, depth + 1) for d in defs
+                     if d in reach and isinstance(d.ast, ast.Assign) and len(d.ast.targets) == 1}
+            if len(kinds) == 1:
+                return kinds.pop()
+            return norm(k)
+        return norm(k)
+    keys = set()
+    per_scenario = {True: set(), False: set()}
+    for c, e in M.find(f.node, 'self.yaml_implicit_resolvers.get(__key, ...)', env):
+        nodes = [n for n in rcfg.nodes if n.ast is not None and any(y is c for y in _own(n))]
+        for empty in (True, False):
+            reach = A.cfg_reach_under(rcfg, scenario_atom(empty))
+            for n in nodes:
+                if n in reach:
+                    per_scenario[empty].add(key_kind(e['__key'], n, empty))
+    keys = {'None'} if 'none' in (per_scenario[True] | per_scenario[False]) else set()
+    empty_guard = (per_scenario[True] - {'none'}) == {'empty'}
+    first_guard = (per_scenario[False] - {'none'}) == {'first'}
+    if empty_guard:
+        keys.add("''")
+    if first_guard:
+        keys.add('value[0]')
     loop = M.find(f.node, 'for (__t, __r) in __lists:\n    if __r.match(_N_v):\n        return __t', env)
     order_ok = False
     for n, e in loop:
